@@ -385,7 +385,9 @@ def builtin_programs():
             calls.append(("call", f, (e,)))
         for k in (S("app"), S("title"), S("missing")):
             calls.append(("call", "chunk_events_by_key", (e, k)))
-            for v in (L(), L(S("Editor")), L(S("Editor"), S("Game")), L(S("(2) foo.py - code"))):
+            # values may be lists or dicts themselves (e.g. $category values): unhashable, compared with ==
+            # (seeded: the query wrapper passed set(vals))
+            for v in (L(), L(S("Editor")), L(S("Editor"), S("Game")), L(S("(2) foo.py - code")), L(L(S("Editor"))), L(D(k=S("v")), S("Editor"))):
                 calls.append(("call", "filter_keyvals", (e, k, v)))
                 calls.append(("call", "exclude_keyvals", (e, k, v)))
             calls.append(("call", "filter_keyvals_regex", (e, k, S("o"))))
